@@ -522,6 +522,14 @@ def _loaded_shape(e, owner, depth=0, scope=None):
                     rets = [r for r in ast.walk(d) if isinstance(r, ast.Return) and r.value is not None]
                     if len(rets) == 1:
                         return _loaded_shape(rets[0].value, owner, depth + 1, d)
+            # a module-level helper of the loaders (what it returns, read in its own scope)
+            ix_ = getattr(owner, 'index', None)
+            mod_ = getattr(owner, 'module', None)
+            g = ix_.functions.get('%s.%s' % (mod_.name, e.func.id)) if ix_ is not None and mod_ is not None else None
+            if g is not None and g.raw_node is not getattr(owner, 'raw_node', None):
+                rets = [r for r in ast.walk(g.raw_node) if isinstance(r, ast.Return) and r.value is not None]
+                if len(rets) == 1:
+                    return _loaded_shape(rets[0].value, owner, depth + 1, g.raw_node)
         return 'V'
     if isinstance(e, (ast.List, ast.Tuple)):
         return [_loaded_shape(x, owner, depth + 1, scope) for x in e.elts]
